@@ -319,6 +319,13 @@ func (m *c11GoMod) build() (map[string]string, error) {
 	all := map[string]string{}
 	for round := 0; round < 8; round++ {
 		res, err := m.buildOnce()
+		// an error that names no generated package is the toolchain's (e.g. the shared Go build
+		// cache being trimmed by a concurrent run): try again before giving up
+		for retry := 0; err != nil && retry < 3; retry++ {
+			StatN("go-build-retries", 1)
+			time.Sleep(time.Duration(2+retry*3) * time.Second)
+			res, err = m.buildOnce()
+		}
 		if err != nil {
 			return nil, err
 		}
